@@ -308,49 +308,16 @@ func C01(p *core.Program, r *core.Report) {
 	for _, fn := range p.ModFunctions(false) {
 		if reach[fn] {
 			nReach++
-			if !core.Transparent(fn) {
-				fns = append(fns, p.Inlined(fn))
-			}
+		}
+	}
+	for _, u := range units(p) {
+		if reach[p.Original(u)] {
+			fns = append(fns, u)
 		}
 	}
 	r.Stats["reachable_module_functions"] = nReach
 	r.Stats["analysis_units"] = len(fns)
-	// closures are named after the unit whose (expanded) body creates them, not after the
-	// unexported helper they happen to be written in
-	unitNames := map[*ssa.Function]string{}
-	for _, u := range fns {
-		if p.Original(u).Parent() != nil {
-			continue
-		}
-		for k, cl := range closuresOf(u) {
-			if _, ok := unitNames[cl]; !ok {
-				unitNames[cl] = fmt.Sprintf("%s/closure#%d", core.ShortKey(u), k+1)
-			}
-		}
-	}
-	for changed := true; changed; {
-		changed = false
-		for _, u := range fns {
-			o := p.Original(u)
-			if o.Parent() == nil {
-				continue
-			}
-			if base, ok := unitNames[o]; ok {
-				for k, cl := range closuresOf(u) {
-					if _, ok := unitNames[cl]; !ok {
-						unitNames[cl] = fmt.Sprintf("%s/closure#%d", base, k+1)
-						changed = true
-					}
-				}
-			}
-		}
-	}
-	unitName := func(fn *ssa.Function) string {
-		if n, ok := unitNames[p.Original(fn)]; ok {
-			return n
-		}
-		return core.ShortKey(fn)
-	}
+	unitName := func(fn *ssa.Function) string { return unitName(p, fn) }
 	c := core.NewCanon(p)
 
 	// ---- T1
